@@ -200,7 +200,9 @@ CHECKS = {
              "non-idempotent INCR/RPUSH/APPEND, PING, MULTI/EXEC, sentinel hello, EVAL, OPINFO, keep-alive newline, mixed case) are crossed with the db/key/lua "
              "filters, target.db, resume, sender count/size and start database. Oracle: the commands the model applied (minus the tool's own SELECT/PING/checkpoint "
              "writes) equal, in order, argument for argument and database for database, a pure fold of the stream; no MULTI/EXEC reaches the target when resume is off; "
-             "everything is applied after 1.1 s of idleness; no abort. A fourth environment answer pauses 300 ms (less than the flush period) to produce trickling streams; at every quiescent point of the bubble clock every forwarded command whose bytes were delivered 500 ms or more earlier must have been applied.",
+             "everything is applied after 1.1 s of idleness; no abort. A fourth environment answer pauses 300 ms (less than the flush period) to produce trickling streams; at every quiescent point of the bubble clock every forwarded command whose bytes were delivered 500 ms or more earlier must have been applied. "
+             "A further sweep (streams up to the all-schedules length, configurations without db filter in the quick tier) adds the answer 'the next command arrives inside the sender's timer case' through the verifTimerCase seam: "
+             "the command is written by the source and queued by the parser between the flush timer firing and the sender looking at its queue (inside a bubble the queue is otherwise always empty when a timer fires); there only the idle-stream bound is judged.",
         note="trusts testing/synctest (A1), mredis (A5), redigo (A2); asynctimerchan=0 (A3). The cascade between two stimuli runs under the real Go scheduler; it is required to be deterministic and replayed traces must agree. Target stalls are not modelled in this check.",
         rule="execution = (stream, configuration, schedule); states = distinct executions; transitions = environment stimuli applied; non-trivial = the reference fold forwards at least one command",
         parts=[dict(pkg="./redis-shake/dbSync", harness=["dbsync"], test="^TestVerif_C03$", shards=16, gomaxprocs=2, budget=dict(quick=75, thorough=1500))],
